@@ -119,4 +119,107 @@ theorem vliDecodeAux_minimal : ∀ (b : List UInt8) (pos v : Nat) (t : List UInt
             rw [this, Nat.pow_succ]
             omega
 
+/-! ### The multi-call loop (`vliDecLoop`, the way the C code accumulates) agrees with the specification form -/
+
+theorem shift_step (a w pos : Nat) :
+    (a <<< (pos * 7)) + (w <<< ((pos + 1) * 7)) = (a + 128 * w) <<< (pos * 7) := by
+  simp only [Nat.shiftLeft_eq]
+  have h : (pos + 1) * 7 = pos * 7 + 7 := by omega
+  rw [h, Nat.pow_add]
+  generalize 2 ^ (pos * 7) = k
+  have : (2 : Nat) ^ 7 = 128 := by decide
+  rw [this, Nat.add_mul, Nat.mul_assoc]
+  congr 1
+  rw [Nat.mul_comm k 128, ← Nat.mul_assoc, Nat.mul_comm w 128, Nat.mul_assoc]
+
+/-- If the multi-call loop ends an integer (`LZMA_STREAM_END`) then the specification decoder accepts the same bytes,
+    with the accumulated value, the consumed count and the final `vli_pos` related as expected. -/
+theorem vliDecLoop_streamEnd_aux : ∀ (inp : List UInt8) (vli pos used v p u : Nat),
+    vliDecLoop inp vli pos used = (.streamEnd, v, p, u) →
+    ∃ w, vliDecodeAux pos inp = some (w, inp.drop (u - used)) ∧ v = vli + (w <<< (pos * 7)) ∧ used < u
+      ∧ u - used ≤ inp.length ∧ p = pos + (u - used) := by
+  intro inp
+  induction inp with
+  | nil => intro vli pos used v p u h; simp [vliDecLoop] at h
+  | cons b t ih =>
+    intro vli pos used v p u h
+    simp only [vliDecLoop] at h
+    by_cases hb : b.toNat < 128
+    · simp only [hb, if_true] at h
+      by_cases hz : b.toNat = 0 ∧ pos + 1 > 1
+      · simp [hz] at h
+      · simp only [hz, if_false, Prod.mk.injEq, true_and] at h
+        obtain ⟨hv, hp, hu⟩ := h
+        subst hu
+        have hz' : ¬ (b.toNat = 0 ∧ pos > 0) := by omega
+        refine ⟨b.toNat, ?_, ?_, by omega, by simp, by omega⟩
+        · simp only [vliDecodeAux, hb, if_true, hz', if_false]
+          have : used + 1 - used = 1 := by omega
+          simp [this]
+        · rw [← hv]
+          have : b.toNat % 128 = b.toNat := by omega
+          rw [this]
+    · simp only [hb, if_false] at h
+      by_cases h9 : pos + 1 = VLI_BYTES_MAX
+      · simp [h9] at h
+      · simp only [h9, if_false] at h
+        obtain ⟨w, hdec, hv, hlt, hle, hp⟩ := ih _ _ _ _ _ _ h
+        refine ⟨b.toNat % 128 + 128 * w, ?_, ?_, by omega, by simp only [List.length_cons]; omega, by omega⟩
+        · simp only [vliDecodeAux, hb, if_false, h9, hdec]
+          have : u - used = (u - (used + 1)) + 1 := by omega
+          rw [this]
+          simp
+        · rw [hv, Nat.add_assoc, shift_step]
+
+/-- Bridge used by stream decoders that run the multi-call loop over a whole buffer: a finished integer is exactly what
+    the specification decoder returns, and `used` bytes were consumed. -/
+theorem vliDecLoop_streamEnd (inp : List UInt8) (v p used : Nat) (h : vliDecLoop inp 0 0 0 = (.streamEnd, v, p, used)) :
+    vliDecode inp = some (v, inp.drop used) ∧ 0 < used ∧ used ≤ inp.length ∧ p = used := by
+  obtain ⟨w, hdec, hv, hlt, hle, hp⟩ := vliDecLoop_streamEnd_aux inp 0 0 0 v p used h
+  simp only [Nat.sub_zero, Nat.zero_mul, Nat.shiftLeft_zero, Nat.zero_add] at hdec hv hle hp
+  subst hv
+  exact ⟨hdec, hlt, hle, hp⟩
+
+/-- Conversely, whatever the specification decoder accepts the loop accepts, with the same value and count. -/
+theorem vliDecLoop_of_decodeAux : ∀ (inp : List UInt8) (vli pos used w : Nat) (r : List UInt8),
+    vliDecodeAux pos inp = some (w, r) →
+    vliDecLoop inp vli pos used = (.streamEnd, vli + (w <<< (pos * 7)), pos + (inp.length - r.length), used + (inp.length - r.length))
+      ∧ r.length < inp.length := by
+  intro inp
+  induction inp with
+  | nil => intro vli pos used w r h; simp [vliDecodeAux] at h
+  | cons b t ih =>
+    intro vli pos used w r h
+    simp only [vliDecodeAux] at h
+    by_cases hb : b.toNat < 128
+    · simp only [hb, if_true] at h
+      by_cases hz : b.toNat = 0 ∧ pos > 0
+      · simp [hz] at h
+      · simp only [hz, if_false, Option.some.injEq, Prod.mk.injEq] at h
+        obtain ⟨hw, hr⟩ := h
+        subst hw hr
+        have hz' : ¬ (b.toNat = 0 ∧ pos + 1 > 1) := by omega
+        have hm : b.toNat % 128 = b.toNat := by omega
+        have hl : (b :: t).length - t.length = 1 := by simp
+        simp only [vliDecLoop, hb, if_true, hz', if_false, hm, hl]
+        simp
+    · simp only [hb, if_false] at h
+      by_cases h9 : pos + 1 = VLI_BYTES_MAX
+      · simp [h9] at h
+      · simp only [h9, if_false] at h
+        cases hrec : vliDecodeAux (pos + 1) t with
+        | none => simp [hrec] at h
+        | some q =>
+          obtain ⟨w', r'⟩ := q
+          simp only [hrec, Option.some.injEq, Prod.mk.injEq] at h
+          obtain ⟨hw, hr⟩ := h
+          subst hw hr
+          obtain ⟨hl, hlen⟩ := ih (vli + ((b.toNat % 128) <<< (pos * 7))) (pos + 1) (used + 1) w' r' hrec
+          simp only [vliDecLoop, hb, if_false, h9, hl]
+          have e1 : (b :: t).length - r'.length = (t.length - r'.length) + 1 := by simp only [List.length_cons]; omega
+          refine ⟨?_, by simp only [List.length_cons]; omega⟩
+          rw [e1, Nat.add_assoc, shift_step]
+          simp only [Prod.mk.injEq, true_and]
+          omega
+
 end XzVerif.Vli
